@@ -27,6 +27,13 @@ def search(chk, rng, n_points):
                 found += chk.violation('point', fails[0], {'kind': 'point', 'case': case})
                 if found > 3:
                     return found
+    # N = 1 (recorded finding F9): the literal statement "the image is the centre of a grid cell" does not hold, the map is affine
+    from iOpt.evolvent.evolvent import Evolvent
+    y = float(Evolvent([0.0], [1.0], 1, 10).GetImage(0.3)[0])
+    j = y * 1024 - 0.5
+    chk.evaluations += 1
+    if abs(j - round(j)) > 1e-9:
+        found += chk.violation('n1-affine', 'N = 1: GetImage(0.3) = %r on [0,1] with density 10 is not the centre (j+1/2)/1024 of a grid cell' % y, {'kind': 'n1', 'witness': 'n1-affine'})
     found += deep_distinct(chk, rng, n_points)
     found += thin_boxes(chk, rng)
     return found
@@ -61,7 +68,7 @@ def deep_distinct(chk, rng, count):
         n = rng.choice([2, 3, 4, 5])
         m = rng.choice([50 // n, 50 // n - 1, max(2, 34 // n + 1), 10 if n * 10 <= 50 else 50 // n])
         lo, hi = H.random_box(rng, n, nice=rng.random() < 0.5)
-        case = {'n': n, 'm': m, 'lo': lo, 'hi': hi, 'prehistory': O.random_prehistory(rng, n, lo, hi)}
+        case = {'n': n, 'm': m, 'lo': lo, 'hi': hi, 'prehistory': O.random_prehistory(rng, n, lo, hi), 'm_type': 'int32' if _ % 3 == 2 else 'int'}
         K = 2 ** (n * m)
         j = rng.randint(0, min(m - 1, 3))
         k = rng.randrange(0, 2 ** (n * j)) if j else 0
